@@ -303,7 +303,14 @@ func (ri *RedisInput) syncMeta(ctx context.Context, redisCli *redis.StandaloneRe
 		ri.logger.Errorf("channel SetRunId error : offset(%v), err(%v)", sOffset, err)
 		return
 	}
-	err = ri.output.SetRunId(ctx, sOffset.RunId)
+	if resetter, ok := ri.output.(interface {
+		ResetRunId(ctx context.Context, runId string) error
+	}); ok && isFullSync {
+		// the target is about to be loaded from a snapshot : its stored position belongs to what it held before
+		err = resetter.ResetRunId(ctx, sOffset.RunId)
+	} else {
+		err = ri.output.SetRunId(ctx, sOffset.RunId)
+	}
 	if err != nil {
 		ri.logger.Errorf("output SetRunId error : offset(%v), err(%v)", sOffset, err)
 		return
